@@ -109,6 +109,7 @@ def run_case(case):
             fields.insert(rng.randrange(len(fields) + 1), {'name': 'rowid', 'type': 'integer'})
             pk = ['rowid']
         nrows = rng.choice([0, 1, 2, 5, 12, 30])
+        rng_n = boot.rng(case['seed'], 'C03', 'nested', case['idx'], r)
         tcov = {}
         rows = []
         for i in range(nrows):
@@ -130,6 +131,11 @@ def run_case(case):
                 if fd['type'] == 'string' and not strip and False:
                     classes = None
                 v, c = gen.value(rng, fd['type'], classes, null_p=0.15)
+                if fd['type'] in ('array', 'object') and v is not None and rng_n.random() < 0.25:
+                    # fractions that sit two or three levels deep, under parents that hold no fraction themselves
+                    v = rng_n.choice({'array': [[[0.1]], [{'lat': 51.5}], [1, [2, [0.25]]], ['a', {'b': {'c': 2.5}}]],
+                                      'object': [{'box': {'h': 0.7}}, {'pts': [[1.5, 2]]}, {'a': 1, 'b': {'c': [0.125]}}]}[fd['type']])
+                    c = 'nested_fraction_under_plain_parent'
                 row[fd['name']] = v
                 key = '%s/%s/%s' % (fd['type'], c, fmt)
                 tcov[key] = tcov.get(key, 0) + 1
